@@ -43,6 +43,10 @@ def run(chk, ctx):
         chk.require(bool(good), "ORG", "ORG:%s:%s:error-propagated-unchanged" % (b.name.split("::")[-1], nm.split("::")[-1]), "Err(e) => return Err(From::from(e))", "the error of the %s call in %s leaves as %s" % (nm.split("::")[-1], b.name, sorted(shapes)), "%s:%d" % (b.file, b.term(bb)["span"]["line"]))
     provided_write_input_rule(chk, P)
     chk.floor("ORG", "driver call sites with `?`", n, 3)
+    # "from the constructor when it is the initial call, otherwise as the item for exactly the row whose call failed": the
+    # constructor owns exactly one driver call (a second one would surface a row's failure from try_iter) — shared with C02
+    from . import c02 as _c02
+    _c02.run(chk.only(("CNT:try_new:exactly-one-read-call", "WHO:try_new-uses-read-call", "WHO:driver-call-sites")), ctx)
     # 3. next() forwards handle_io's error; try_iter forwards try_new's result
     nx = P.body(NEXT)
     if chk.anchor("next", nx):
